@@ -94,7 +94,9 @@ fn check_fill_diff(text: &str, spec: &OptSpec) -> Outcome {
     Outcome::pass(gap || !spec.initial_indent.is_empty() || text.contains('\n'), classes)
 }
 
-fn check_fits(par: &str, spec0: &OptSpec, prior: bool) -> Outcome {
+pub const KF: &str = "KF-C05-1";
+
+fn check_fits(par: &str, spec0: &OptSpec, prior: bool, mode: Mode) -> Outcome {
     if !spec0.supported() {
         return Outcome::Skip("options not available on this build");
     }
@@ -109,8 +111,14 @@ fn check_fits(par: &str, spec0: &OptSpec, prior: bool) -> Outcome {
     if par.contains('\n') || par.contains('\r') {
         return Outcome::Skip("not a single paragraph");
     }
-    if !scan::is_clean(par) {
+    if !scan::strictly_clean(par) {
         return Outcome::Skip("malformed escape");
+    }
+    if mode == Mode::Normal && fragment_boundary_inside_sequence(par, spec0) {
+        // open known finding: a sequence containing a fragment boundary is
+        // cut and its tail measured as visible text, so text that fits is
+        // wrapped
+        return Outcome::Known(KF);
     }
     let ind = indent_of(spec0, prior, 0).to_string();
     let base = scan::dw(par) + scan::dw(&ind);
@@ -142,11 +150,11 @@ fn check_fits(par: &str, spec0: &OptSpec, prior: bool) -> Outcome {
     Outcome::pass(par.len() > scan::dw(par), classes)
 }
 
-pub fn check(c: &Case) -> Outcome {
+pub fn check(c: &Case, mode: Mode) -> Outcome {
     match c {
         Case::WrapDiff { line, spec, prior } => check_wrap_diff(line, spec, *prior),
         Case::FillDiff { text, spec } => check_fill_diff(text, spec),
-        Case::Fits { par, spec, prior } => check_fits(par, spec, *prior),
+        Case::Fits { par, spec, prior } => check_fits(par, spec, *prior, mode),
     }
 }
 
@@ -197,6 +205,7 @@ impl Property for P {
         let mut par_mix = Mix::CLEAN.no_endings();
         par_mix.uni = 20;
         par_mix.esc_ok = 12;
+        par_mix.esc_tricky = 3;
         let og_fits = OptGen {
             width: Just(0usize).boxed(),
             algos: gen::AlgoSet::FirstOrDefault,
@@ -216,8 +225,8 @@ impl Property for P {
             });
         prop_oneof![4 => wrap_diff, 3 => fill_diff, 2 => fits].boxed()
     }
-    fn check(c: &Case, _m: Mode) -> Outcome {
-        check(c)
+    fn check(c: &Case, m: Mode) -> Outcome {
+        check(c, m)
     }
     fn cases(tier: Tier) -> u64 {
         match tier {
@@ -226,7 +235,7 @@ impl Property for P {
         }
     }
     fn rule() -> String {
-        "(a) differential: line/text over the full alphabet (multi-byte heavy), all options incl. custom splitters, with/without a prior output line, width drawn from [display width, byte length + 2] in 75% of the cases; oracle = textwrap::fuzzing::wrap_single_line == wrap_single_line_slow_path and fill == fill_slow_path. (b) clean paragraph x {first-fit, default optimal-fit} x separators x none/hyphen splitter x break_words x indents x prior line: at every width from dw(par)+dw(indent) to that + len(par)+3 the result is exactly [indent + par.trim_end_matches(' ')]. non-trivial = (a) display width < width <= byte length, or a non-empty applicable indent (fill: or a newline); (b) byte length > display width. distinct = distinct serialized cases".into()
+        "(a) differential: line/text over the full alphabet (multi-byte heavy), all options incl. custom splitters, with/without a prior output line, width drawn from [display width, byte length + 2] in 75% of the cases; oracle = textwrap::fuzzing::wrap_single_line == wrap_single_line_slow_path and fill == fill_slow_path. (b) clean paragraph (incl. sequences with a space or a hyphen in the payload; cases matching the open known finding KF-C05-1 — a fragment boundary inside a sequence — are excluded and counted) x {first-fit, default optimal-fit} x separators x none/hyphen splitter x break_words x indents x prior line: at every width from dw(par)+dw(indent) to that + len(par)+3 the result is exactly [indent + par.trim_end_matches(' ')]. non-trivial = (a) display width < width <= byte length, or a non-empty applicable indent (fill: or a newline); (b) byte length > display width. distinct = distinct serialized cases".into()
     }
     fn assumptions() -> Vec<String> {
         vec!["needs the upstream cfg(fuzzing) entry points (no source hook added)".into()]
